@@ -29,7 +29,7 @@ package gateway
 //@ func treasureToKeyValuePair(treasureInterface, t)
 //@   property C30
 //@   requires[args] treasureInterface != nil && t != nil && t.ExpiredAt == nil
-//@   modifies all(t)
+//@   modifies all(t), ghost("ts_nanos")
 //@   ensures[expiry_reported_iff_set] (U_treasure_exp(treasureInterface) != 0) <==> (t.ExpiredAt != nil)
 
 // Cap accounting (property C12). Ghost protocol for the swamp's cap mutex:
@@ -60,4 +60,4 @@ package gateway
 //@ func (Gateway).SubscribeToEvents$1(event)
 //@   property C19
 //@   modifies *
-//@   ensures[event_time_is_the_instant_of_the_change] event != nil && calls("New") > old(calls("New")) ==> ghost("ts_nanos") == old(event.EventTime)
+//@   ensures[event_time_is_the_instant_of_the_change] event != nil ==> calls("Unix") == old(calls("Unix")) + 1 && U_unixnano(lastret("Unix")) == old(event.EventTime) && calledwith("New", 0, lastret("Unix"))
